@@ -6,7 +6,7 @@ HERE = os.path.dirname(os.path.dirname(os.path.abspath(__file__)))
 TECH = "deterministic simulation with fault injection"
 CLAIMED = {
  "C09": dict(engine="lifecycle", design="§3 C09",
-   text="Seeded search over interleavings: 1-6 simulated caller goroutines issue RunCode/ModuleInit/ResolveAndCompile/RunFile/py.Import from Go/py.Call of Python functions that import, exec or eval (source or precompiled code objects)/Close/Done-wait against the real stdlib.context, with request bodies that import callback modules, raise, fail to compile, panic inside the resolver (recovered by the embedder) or nest exec up to 300 deep, preempted before every statement of package stdlib, at every (simulated) sync operation and every VM instruction; ordering / exactly-once invariants I1-I6 are checked over the recorded event history (global event sequence numbers). Sampling, not enumeration: a clean batch is evidence, not proof.",
+   text="Seeded search over interleavings: 1-6 simulated caller goroutines issue RunCode/ModuleInit/ResolveAndCompile/RunFile/py.Import from Go/py.Call of Python functions that import, exec or eval (source or precompiled code objects)/Close/Done-wait against the real stdlib.context, with request bodies that import callback modules, raise, fail to compile, panic inside the resolver (recovered by the embedder) or nest exec up to 300 deep, and close callbacks that stay in flight or re-enter their own closing context (RunCode / py.Import / py.Call+exec), preempted before every statement of package stdlib, at every (simulated) sync operation and every VM instruction; ordering / exactly-once invariants I1-I6 are checked over the recorded event history (global event sequence numbers). Sampling, not enumeration: a clean batch is evidence, not proof.",
    note="Trusted: the scratch-copy instrumenter (type-driven, mechanical rewrites R1-R6), simsync's model of sync.{Mutex,RWMutex,Once,WaitGroup,Cond} under sequential consistency; weak-memory behaviours of racy code are not explored. Close from inside an execution of the same context is excluded.",
    technique=TECH + ": seeded cooperative scheduler (random/PCT/quantum) over real goroutines, simulated sync, history invariants, schedule minimisation"),
 }
@@ -17,7 +17,7 @@ CLAIMED.update({
    note="Trusted: rewrite R1 (range-over-map -> simrt.Iter, produces only orders the Go spec allows), CPython 3.11 as reference for scoping; UnboundLocalError is folded into NameError; __class__/super() and walrus are outside the fragment.",
    technique=TECH + ": seeded map-iteration-order seam, repetition under adversarial orders, CPython reference trace"),
  "C11": dict(engine="srcfault", design="§3 C11", level="fault_enumeration",
-   text="Stream-fault injection into the compile pipeline: valid sources (repo .py windows, generated programs, grammar-covering snippets, literal fuzz around 63/64-bit and escape boundaries, stress shapes up to 300 operands / 45 nested blocks) are damaged by 1-3 modelled faults (EOF at an arbitrary byte, bit flips, inserted control/invalid-UTF-8/token fragments, deletions, duplicated/swapped lines, indentation corruption) and delivered as a string or through a faulty io.Reader (short reads, zero reads, read error after k bytes) in exec/single/eval mode; the call must return a code object or a SyntaxError-family exception with file/line/offset within a deterministic step budget (hang = budget overflow), never a panic, SystemError, other class or (nil,nil). Seeded sampling of the fault space, not token-sequence enumeration.",
+   text="Stream-fault injection into the compile pipeline: valid sources (repo .py windows, generated programs, grammar-covering snippets, literal fuzz around 63/64-bit and escape boundaries, stress shapes up to 300 operands / 45 nested blocks, blocks of 16376-33000 statements whose code is longer than a 16-bit jump argument reaches) are damaged by 1-3 modelled faults (EOF at an arbitrary byte, bit flips, inserted control/invalid-UTF-8/token fragments, deletions, duplicated/swapped lines, indentation corruption) and delivered as a string or through a faulty io.Reader (short reads, zero reads, read error after k bytes) in exec/single/eval mode; the call must return a code object or a SyntaxError-family exception with file/line/offset within a deterministic step budget (hang = budget overflow), never a panic, SystemError, other class or (nil,nil). Seeded sampling of the fault space, not token-sequence enumeration.",
    note="Trusted: the step counter inserted at every function entry / loop head of parser, symtable, compile; py.IsException for the SyntaxError family. Exhaustive short token sequences (the property's 'explored' text) are not enumerated: that is bounded model checking, not this technique.",
    technique=TECH + ": fault-injecting source stream (EOF/corruption/short reads/read errors), deterministic step budget, totality invariant"),
  "C18": dict(engine="compiledet", design="§3 C18",
@@ -28,36 +28,36 @@ CLAIMED.update({
 
 CLAIMED.update({
  "C05": dict(engine="gens", design="§3 C05",
-   text="The simulator plays the caller of several live generators/iterators and the faulty producer: seeded histories of create/next/send/consume (54 consumers, incl. starred unpacking with >255 targets and truth tests that raise inside filter/any/all) over generator functions with try/finally and return values, iterator and iterable classes, yield-from delegators, map/filter/genexp/zip/enumerate wrappers and built-in iterators, with a seeded item raising a seeded exception or the end signalled by StopIteration as class / instance / instance with value; every step's value, finally-block execution, exception class and StopIteration.args, plus two exhaustion probes per producer, must equal the trace of the same history in CPython.",
+   text="The simulator plays the caller of several live generators/iterators and the faulty producer: seeded histories of create/next/send/consume (54 consumers, incl. starred unpacking with >255 targets and truth tests that raise inside filter/any/all) over generator functions with try/finally and return values, generator functions with seeded RANDOM bodies (yields in operand position, inside loops / finally blocks / except handlers with a bare re-raise / with blocks, delegation, break-continue-return through pending finally blocks, the running generator resumed from inside its own frame), iterator and iterable classes, yield-from delegators, map/filter/genexp/zip/enumerate wrappers and built-in iterators, with a seeded item raising a seeded exception or the end signalled by StopIteration as class / instance / instance with value; every step's value, finally-block execution, exception class and StopIteration.args, plus two exhaustion probes per producer, must equal the trace of the same history in CPython.",
    note="Trusted: CPython 3.11 as reference (generator bodies never leak StopIteration, so PEP 479 does not matter); canonical rendering of ints/strs/lists/tuples/sets identical on both sides; frozenset(iterable), dict(zip()), str-item producers, sets of tuples and send() into non-generators are outside the generated fragment (gaps of the tree unrelated to the property, see DESIGN §2.4b).",
    technique=TECH + ": seeded caller histories over suspended generator frames + fault-injecting producers, CPython reference trace"),
 })
 
 CLAIMED.update({
  "C19": dict(engine="imports", design="§3 C19",
-   text="The simulator owns the file system behind the import resolver and the arrival order of imports: 1-5 (1 in 12: 6-25) generated source modules (chains, diamonds, cycles, a shadowed copy in a second sys.path directory, __all__ incl. one naming a missing attribute / _private names, attributes of the Go module math rebound and deleted, star imports executed with a fresh dict as locals, files appearing and sys.path changing at run time) in a virtual file system are imported in seeded order and in all five statement forms by a main program in one to three (interleaved) contexts that may share ONE code object of the main program, with missing modules and names injected in main and nested positions and, in 20% of runs, EIO / torn / vanishing files; the trace (exec-once log lines, identities, values seen by each importer, names bound by star-import, exception classes, and a follow-up program run in the same context) must equal CPython importing the same files; under file-system faults only no-panic, exec-at-most-once and context-still-usable are judged.",
+   text="The simulator owns the file system behind the import resolver and the arrival order of imports: 1-5 (1 in 12: 6-25) generated source modules (chains, diamonds, cycles, a shadowed copy in a second sys.path directory, __all__ incl. one naming a missing attribute / _private names, attributes of the Go module math rebound and deleted, modules reaching the running program through 'import __main__', the main program run as a script (code of a new __main__ module), decoy directory entries named like a module (directory without __init__.py, extension-less file), star imports executed with a fresh dict as locals, files appearing and sys.path changing at run time) in a virtual file system are imported in seeded order and in all five statement forms by a main program in one to three (interleaved) contexts that may share ONE code object of the main program, with missing modules and names injected in main and nested positions and, in 20% of runs, EIO / torn / vanishing files; the trace (exec-once log lines, identities, values seen by each importer, names bound by star-import, exception classes, and a follow-up program run in the same context) must equal CPython importing the same files; under file-system faults only no-panic, exec-at-most-once and context-still-usable are judged.",
    note="Trusted: rewrite R5 (os.Stat/ReadFile/Open/Getwd -> simfs in package stdlib), CPython 3.11 as reference; packages/dotted names and re-import of a module whose body raised are outside the fragment.",
    technique=TECH + ": virtual file system with ENOENT/EIO/torn/vanish faults behind the resolver, seeded import order/form, CPython reference trace, two interleaved contexts"),
 })
 
 CLAIMED.update({
  "C20": dict(engine="repl", design="§3 C20",
-   text="The simulator plays the terminal of the real repl.REPL through its UI seam: seeded sessions (simple and compound statements, nested blocks, decorators, multi-line brackets and triple-quoted strings with blank lines inside, backslash continuations, comments, ';'-joined statements, bare expressions incl. None) are cut into physical lines with seeded indent width and extra blank lines and fed one line per event with a blank line after each multi-line statement, with injected syntax errors (single-line and inside a block) and runtime errors (after and before a side effect, incl. SyntaxErrors raised at run time for truncated source), lines of up to 140 KiB, and the embedder registering a new UI mid-session; the same lines are also piped through the command-line front end (repl/cli.RunREPL on replaced file descriptors) whose transcript must equal the prompts and prints of the directly fed REPL. Oracles per terminal event: side-effect markers occur exactly once, in order, not before the statement's last line and not after its terminating blank line; the prompt is '... ' while a statement is incomplete and '>>> ' once everything entered has run; echo = repr(value) for non-None bare expressions and nothing otherwise; compile errors are reported; _ and the final session namespace equal those of a reference session that executes the same statements one by one via exec/eval mode.",
+   text="The simulator plays the terminal of the real repl.REPL through its UI seam: seeded sessions (simple and compound statements, nested blocks, decorators, multi-line brackets and triple-quoted strings with blank lines inside, backslash continuations (also inside single-quoted strings), an embedder callable that types lines into the same REPL while a statement executes, comments, ';'-joined statements, bare expressions incl. None) are cut into physical lines with seeded indent width and extra blank lines and fed one line per event with a blank line after each multi-line statement, with injected syntax errors (single-line and inside a block) and runtime errors (after and before a side effect, incl. SyntaxErrors raised at run time for truncated source), lines of up to 140 KiB, and the embedder registering a new UI mid-session; the same lines are also piped through the command-line front end (repl/cli.RunREPL on replaced file descriptors) whose transcript must equal the prompts and prints of the directly fed REPL. Oracles per terminal event: side-effect markers occur exactly once, in order, not before the statement's last line and not after its terminating blank line; the prompt is '... ' while a statement is incomplete and '>>> ' once everything entered has run; echo = repr(value) for non-None bare expressions and nothing otherwise; compile errors are reported; _ and the final session namespace equal those of a reference session that executes the same statements one by one via exec/eval mode.",
    note="Trusted: the UI recorder, the reference session built from py.Compile(exec/eval)+RunCode of the same build (single mode / PRINT_EXPR are deliberately not used by the reference), traceback text on stderr is not inspected.",
    technique=TECH + ": simulated terminal (line-at-a-time event feed with injected erroneous statements) over the REPL's UI seam, reference session, per-event timing/prompt/exactly-once invariants"),
 })
 
 CLAIMED.update({
  "C17": dict(engine="containers", design="§3 C17",
-   text="Seeded histories over a pool of six aliases bound to lists, string-keyed dicts and sets (some aliases of one another): every item/slice/extended-slice assignment and deletion shape, append/extend/+=/slice-assign from lists, tuples, iterators, generator expressions, other aliases and the container itself, sort with key functions that mutate or read lists, *=, copies by constructor/slice/+[]/*1, live iterators stepped between mutations, loops that mutate what they iterate, dict set/del/get/update/views, set add/ops, copies to and from tuples, the embedder calling through py.Call with the program's own dict as kwargs, operations that fail half way (operands raising after some items, key functions raising at the k-th call, raising truth tests, absent keys), histories of up to 50 operations and containers of up to 260 elements; dict and set iteration order is chosen by the simulator. After every operation the result or exception class and a dump of all aliases must equal CPython's containers after the same history.",
+   text="Seeded histories over a pool of six aliases bound to lists, string-keyed dicts and sets (some aliases of one another): every item/slice/extended-slice assignment and deletion shape, append/extend/+=/slice-assign from lists, tuples, iterators, generator expressions, other aliases and the container itself, sort with key functions that mutate or read lists, *=, copies by constructor/slice/+[]/*1, live iterators stepped between mutations, loops that mutate what they iterate, dict set/del/get/update/views, set add/ops, copies to and from tuples, the embedder calling through py.Call with the program's own dict as kwargs, operands that mutate the container while the operation reads them, in-place set operators, operations that fail half way (operands raising after some items, key functions raising at the k-th call, raising truth tests, absent keys), histories of up to 50 operations and containers of up to 260 elements; dict and set iteration order is chosen by the simulator. After every operation the result or exception class and a dump of all aliases must equal CPython's containers after the same history.",
    note="Trusted: CPython 3.11 containers as the reference model; methods generated from a static list of what the pinned tree registers plus update. Two known findings (equal scalars of different types kept distinct in sets; dict views iterating in unrelated orders) are listed in known_findings.json, their input classes are excluded from random generation and their witnesses replayed on every run; the repaired defects are replayed as regressions.",
    technique=TECH + ": seeded operation histories on aliased containers with live iterators and callbacks, simulator-chosen map order, CPython reference model"),
 })
 
 CLAIMED.update({
  "C08": dict(engine="isolation+race-contexts", design="§3 C08",
-   text="Mode A (deterministic simulation): 2-4 contexts, one cooperative task each, run generated programs that write context-tagged values to and read back 27 kinds of reachable per-context state (module globals, a module the embedder initialised per context from same-length source, a bytes value built in place from a code-object constant, SyntaxErrors kept from failed compiles, attributes of Go modules incl. os.environ, sys.path/sys.argv in place and rebound, builtins added and rebound, a source module from a shared virtual file system, class attributes, mutable defaults, attributes of built-in types), optionally all on ONE shared code object, interleaved at every VM instruction by a seeded scheduler; each context's trace must equal its solo trace and the reads of a per-context reference model, and a fingerprint of the process-global state from which contexts are built (module implementations, built-in type dictionaries) must not change. Mode B (stated as NOT deterministic): the same scenarios and parallel REPL sessions on free-running goroutines in a -race build of the uninstrumented tree; zero race reports and solo equivalence.",
-   note="Trusted: rewrites R1-R3/R5; mode A explores sequentially-consistent interleavings only. Mode B decides only the data-race clause, on the executed paths of the sampled scenarios; a race report ends the worker and is reported with the scenario. Four repaired defects (built-in type attributes and os.environ shared between contexts, vm.PrintExpr raced by concurrent REPL sessions, bytes += writing into a shared constant) are replayed as regressions.",
+   text="Mode A (deterministic simulation): 2-4 contexts, one cooperative task each, run generated programs that write context-tagged values to and read back 30 kinds of reachable per-context state (module globals, a module the embedder initialised per context from same-length source, a bytes value built in place from a code-object constant, SyntaxErrors kept from failed compiles, a source module registered process-wide anew per scenario, classes of other contexts reachable through built-in types, a stdout that fails in the middle of a print, attributes of Go modules incl. os.environ, sys.path/sys.argv in place and rebound, builtins added and rebound, a source module from a shared virtual file system, class attributes, mutable defaults, attributes of built-in types), optionally all on ONE shared code object, interleaved at every VM instruction by a seeded scheduler; each context's trace must equal its solo trace and the reads of a per-context reference model, and a fingerprint of the process-global state from which contexts are built (module implementations, built-in type dictionaries) must not change. Mode B (stated as NOT deterministic): the same scenarios and parallel REPL sessions on free-running goroutines in a -race build of the uninstrumented tree; zero race reports and solo equivalence.",
+   note="Trusted: rewrites R1-R3/R5; mode A explores sequentially-consistent interleavings only. Mode B decides only the data-race clause, on the executed paths of the sampled scenarios; a race report ends the worker and is reported with the scenario. Five repaired defects (built-in type attributes and os.environ shared between contexts, vm.PrintExpr raced by concurrent REPL sessions, bytes += writing into a shared constant, ModuleInit writing compiled code into a shared ModuleImpl) are replayed as regressions.",
    technique=TECH + ": seeded cooperative interleaving of contexts at VM-instruction granularity, solo-run equivalence + global-state fingerprint; plus race-detector runs on real goroutines for the data-race clause"),
 })
 CLAIMED["C18"]["engine"] = "compiledet+race-compile"
